@@ -24,9 +24,12 @@ MAPS = ["triple", "zero"]
 
 def script(k):
     ev, asm, cmp_ = k.progs["evaluate"], k.progs["assemble"], k.progs["compute"]
-    s = [{"op": "load", "val": 1, "dims": 1}, {"op": "run", "prog": ev, "track": False}, {"op": "snap", "vals": True},
-         {"op": "reload"}, {"op": "run", "prog": asm, "track": False}, {"op": "snap", "vals": False},
-         {"op": "freeze"}, {"op": "run", "prog": cmp_, "track": False}, {"op": "snap", "vals": True}]
+    s = [{"op": "load", "val": 1, "dims": 1}, {"op": "run", "prog": ev, "track": False}, {"op": "snap", "vals": True}]
+    for m in MAPS:   # what evaluate yields for the re-valued inputs (fresh memory each time)
+        s += [{"op": "reload"}, {"op": "revalue", "val": 0, "map": m}, {"op": "run", "prog": ev, "track": False},
+              {"op": "snap", "vals": True}]
+    s += [{"op": "load", "val": 1, "dims": 1}, {"op": "run", "prog": asm, "track": False}, {"op": "snap", "vals": False},
+          {"op": "freeze"}, {"op": "run", "prog": cmp_, "track": False}, {"op": "snap", "vals": True}]
     for m in MAPS:
         s += [{"op": "revalue", "val": 0, "map": m}, {"op": "run", "prog": cmp_, "track": False},
               {"op": "snap", "vals": True}]
@@ -34,10 +37,13 @@ def script(k):
 
 
 def obs_script():
-    s = [{"op": "load", "val": 1, "dims": 1}, {"op": "observe", "k": 1}, {"op": "observe", "k": 2},
-         {"op": "observe", "k": 3}]
+    s = [{"op": "load", "val": 1, "dims": 1}, {"op": "observe", "k": 1}]
     for i, m in enumerate(MAPS):
-        s += [{"op": "revalue", "val": 0, "map": m}, {"op": "observe", "k": 4 + i}]
+        s += [{"op": "observe", "k": 2 + i}]
+    n = len(MAPS)
+    s += [{"op": "observe", "k": n + 2}, {"op": "observe", "k": n + 3}]
+    for i, m in enumerate(MAPS):
+        s += [{"op": "observe", "k": n + 4 + i}]
     return s
 
 
@@ -55,7 +61,7 @@ def run(tier, seed):
     for ki, (k, group, cap) in enumerate(klist):
         for dims, content in pipeline.input_sets(k.asg, rng, P["inputs"]):
             cid = len(cases) + 1
-            cases.append(kernels.base_case(k, cid, [dims], [content], script(k), "history"))
+            cases.append(dict(kernels.base_case(k, cid, [dims], [content], script(k), "history"), nmaps=len(MAPS)))
             meta[cid] = {"kernel": ki, "text": k.text, "formats": k.formats, "cap": cap, "group": group, "dims": dims,
                          "content": content}
     d = workdir("c04")
@@ -107,7 +113,7 @@ def run(tier, seed):
             if any(rc != 0 for rc in o["rc"]):
                 vio.append(_pipe.violation(m, "native-nonzero-return", "native", "C04"))
                 continue
-            seq = [o["evaluate"], {"levels": o["assemble"]["levels"], "vals": []}] + o["compute"]
+            seq = o["evaluate"] + [{"levels": o["assemble"]["levels"], "vals": []}] + o["compute"]
             enc = []
             ok = True
             for s in seq:
@@ -120,6 +126,7 @@ def run(tier, seed):
             cid = len(obs) + 1
             c = kernels.base_case(k, cid, [m["dims"]], [m["content"]], obs_script(), "history", emit=False)
             c["obs"] = enc
+            c["nmaps"] = len(MAPS)
             obs.append(c)
             obs_meta[cid] = m
     states, trans, ntr = r.distinct, r.generated, 0
